@@ -67,6 +67,65 @@ def build_network(rows, limits, phases, vt, rt, partial=None):
     return net
 
 
+def apply_op(net, op):
+    """one network mutation through the public API (station ids S<i>)"""
+    from acnportal.acnsim import Current
+    n = len(net.station_ids)
+    cur = lambda row: Current({"S%d" % i: row[i] for i in range(n)})
+    if op["op"] == "update":          # same name: remove + add at the end, name kept
+        net.update_constraint(op["name"], cur(op["row"]), op["limit"])
+    elif op["op"] == "readd":         # remove, then add under the same name
+        net.remove_constraint(op["name"])
+        net.add_constraint(cur(op["row"]), op["limit"], op["name"])
+    elif op["op"] == "add":
+        net.add_constraint(cur(op["row"]), op["limit"], op["name"])
+    elif op["op"] == "remove":
+        net.remove_constraint(op["name"])
+    else:
+        raise ValueError(op["op"])
+
+
+def rand_op(rng, net, counter):
+    """mostly: change the LAST (or only) constraint keeping its name — limit scaled and/or new coefficients"""
+    names = list(net.constraint_index)
+    n = len(net.station_ids)
+    u = rng.random()
+    if names and u < 0.7:
+        name = names[-1] if rng.random() < 0.8 else rng.choice(names)
+        j = names.index(name)
+        row = [float(x) for x in net.constraint_matrix[j]]
+        lim = float(net.magnitudes[j])
+        if rng.random() < 0.35:
+            row = [float(rng.choice(COEFS)) for _ in range(n)]
+            if all(c == 0 for c in row):
+                row[rng.randrange(n)] = 1.0
+        f = rng.choice([0.5, 2.0, 0.25, 1.5, 3.0, 1.0])
+        new_lim = lim * f if lim > 0 else float(rng.choice(LIMITS))
+        return dict(op=rng.choice(["update", "update", "readd"]), name=name, row=row, limit=new_lim)
+    if names and u < 0.8 and len(names) > 1:
+        return dict(op="remove", name=rng.choice(names))
+    row = [float(rng.choice(COEFS)) for _ in range(n)]
+    if all(c == 0 for c in row):
+        row[rng.randrange(n)] = 1.0
+    return dict(op="add", name="m%d" % counter, row=row, limit=float(rng.choice(LIMITS)))
+
+
+def scale_between(A, L, cis, vt, rt, X, T, j, old_rhs, focus_lin):
+    """scale column 0 so that constraint j's current lies between its old and its new limit"""
+    if T == 0 or j >= len(A):
+        return X
+    col = [[X[i][0]] for i in range(len(X))]
+    cur = currents_exact(A, cis, col, 1, focus_lin)
+    mag = math.sqrt(float(cur[j][0][0]) ** 2 + float(cur[j][0][1]) ** 2)
+    new_rhs = float(rhs_exact(L[j], vt, rt))
+    if mag < 1e-9 or old_rhs <= 0 or new_rhs <= 0 or old_rhs == new_rhs:
+        return X
+    target = math.sqrt(old_rhs * new_rhs)
+    for i in range(len(X)):
+        X[i][0] = X[i][0] * target / mag
+    return X
+
+
 def make_interface(net):
     from datetime import datetime
     from acnportal.acnsim import Simulator, Interface, EventQueue
@@ -521,6 +580,34 @@ def gen_block(rng):
             mapping, mkind = make_mapping(rng, X, T)
             impl = run_impl(net, itf, X, T, mapping, ovt, ort)
             cases.extend(finish_cases(spec, A, L, ph, cis, X, T, mapping, mkind, colkinds, impl, ovt=ovt, ort=ort))
+        # ---- mutate the network between queries, on the SAME Simulator / Interface objects: the interface
+        # has already produced an InfrastructureInfo; all three checkers must follow the change
+        if A and rng.random() < 0.7:
+            hist = dict(A=A, L=L, ops=[])
+            for step in range(rng.choice([1, 1, 2, 3])):
+                old_names = list(net.constraint_index)
+                old_L = [float(x) for x in net.magnitudes]
+                op = rand_op(rng, net, step)
+                apply_op(net, op)
+                hist["ops"].append(op)
+                A2, L2, ph2 = read_back(net)
+                names2 = list(net.constraint_index)
+                for _ in range(rng.choice([2, 3])):
+                    T = rng.choice([1, 1, 2, 3])
+                    X = rand_schedule(rng, len(ph), T)
+                    focus = rng.random() < 0.3
+                    X, colkinds = place(rng, A2 or [], L2, cis, spec["vt"], spec["rt"], X, T, focus)
+                    if op["op"] in ("update", "readd") and rng.random() < 0.6 and op["name"] in old_names:
+                        jo = old_names.index(op["name"])
+                        X = scale_between(A2, L2, cis, spec["vt"], spec["rt"], X, T, names2.index(op["name"]),
+                                          float(rhs_exact(old_L[jo], spec["vt"], spec["rt"])), focus)
+                        colkinds = colkinds + ["between-old-and-new-limit"]
+                    mapping, mkind = make_mapping(rng, X, T)
+                    impl = run_impl(net, itf, X, T, mapping)
+                    cs = finish_cases(spec, A2, L2, ph2, cis, X, T, mapping, mkind + "/after-" + op["op"], colkinds, impl)
+                    for c in cs:
+                        c["input"]["history"] = dict(A=hist["A"], L=hist["L"], ops=[dict(o) for o in hist["ops"]])
+                    cases.extend(cs)
     return cases
 
 
@@ -632,13 +719,20 @@ def rerun(inp):
         # re-create the interleaving: the other network is built first and queried right before this one
         b = inp["before"]
         other = build_network(b["A"] or [], b["L"], b["phases"], b["vt"], b["rt"])
+    h = inp.get("history")
+    A0, L0 = (h["A"], h["L"]) if h else (A, L)
     if inp.get("ctor_default"):
-        net = build_network(A or [], L, ph, None, None)
+        net = build_network(A0 or [], L0, ph, None, None)
         # the tolerances are whatever the constructor of the tree under test chose
         inp["vt"], inp["rt"] = float(net.violation_tolerance), float(net.relative_tolerance)
     else:
-        net = build_network(A or [], L, ph, inp["vt"], inp["rt"])
+        net = build_network(A0 or [], L0, ph, inp["vt"], inp["rt"])
     itf = make_interface(net)
+    if h:
+        # the recorded sequence on ONE Interface: fetch the info, mutate the network, fetch again ...
+        for op in h["ops"]:
+            itf.infrastructure_info()
+            apply_op(net, op)
     mapping = [(int(i), r) for i, r in inp["mapping"]]
     if other is not None:
         import numpy as np
@@ -660,7 +754,9 @@ def replay(w):
         return None
     inp = dict(inp)
     impl = rerun(inp)
-    return monitor(dict(input=inp, impl=impl))
+    r = monitor(dict(input=inp, impl=impl))
+    # an open known finding (reported separately as KNOWN-FINDING) is not a reproduction of this witness
+    return None if (r and r.startswith("[")) else r
 
 
 def replay_known(entry):
